@@ -44,6 +44,7 @@ type world struct {
 	chains  map[string]specChain
 	inserts map[string][]string // kernel chain -> rendered rule texts
 	appends map[string][]string
+	hookRefs map[string][]string // "<kernel chain>/ins" or "/app" -> Felix chains the hook rules jump to
 	// out-of-band edits since the last successful Apply that re-read the table
 	opDesc string
 }
@@ -399,6 +400,7 @@ func (w *world) newTable(mode string) {
 	w.chains = map[string]specChain{}
 	w.inserts = map[string][]string{}
 	w.appends = map[string][]string{}
+	w.hookRefs = map[string][]string{}
 	w.sleeps = 0
 }
 
@@ -511,6 +513,13 @@ func exec(w *world, op string) string {
 		if rs == nil {
 			rs = []generictables.Rule{}
 		}
+		var hrefs []string
+		for _, r := range rs {
+			if x := refOf(r); x != "-" {
+				hrefs = append(hrefs, x)
+			}
+		}
+		w.hookRefs[ws[1]+"/"+ws[0]] = hrefs
 		if ws[0] == "ins" {
 			w.table.InsertOrAppendRules(ws[1], rs)
 			w.inserts[ws[1]] = texts
@@ -583,20 +592,10 @@ func (w *world) checkCacheOK(op string) {
 	}
 }
 
-// convergenceOracle: apply_converges evaluated on the real code.  It is only demanded when the
-// Apply re-read the table (an iptables-save succeeded during this Apply) and no out-of-band edit
-// was injected after that read, i.e. when Felix's picture of the table was fresh.
-func (w *world) convergenceOracle(op string) {
-	sawSave, editedAfter := false, strings.Contains(op, "pre=")
-	for _, t := range w.trace {
-		if t == "S:ok" {
-			sawSave = true
-		}
-	}
-	if !sawSave || editedAfter {
-		return
-	}
-	// reachable (referenced) chains: from the kernel chains' inserts/appends and force-programmed chains
+// reachable: the chains that are wanted by the property's own statement (NOT read from the code's reference
+// counts): reachable, through the jumps of the chains Felix was given, from the hook rules (inserts/appends of the
+// shared chains) or from a force-programmed chain.  `skipForce` ignores the force flag of that one chain.
+func (w *world) reachable(skipForce string) map[string]bool {
 	refd := map[string]bool{}
 	var visit func(c string)
 	visit = func(c string) {
@@ -610,13 +609,58 @@ func (w *world) convergenceOracle(op string) {
 			}
 		}
 	}
-	st := w.table.VerifState()
-	for c, n := range st.RefCounts {
-		if n > 0 {
-			refd[c] = true
+	for _, rs := range w.hookRefs {
+		for _, c := range rs {
+			visit(c)
 		}
 	}
-	_ = visit
+	for c, sc := range w.chains {
+		if sc.force && c != skipForce {
+			visit(c)
+		}
+	}
+	return refd
+}
+
+// checkRefcounts: refcount_eq_reachability evaluated on the real code after every operation: a chain has a positive
+// reference count iff it is a kernel chain of this table or reachable (see `reachable`).
+func (w *world) checkRefcounts(op string) {
+	st := w.table.VerifState()
+	want := w.reachable("")
+	for _, c := range kernelCh {
+		want[c] = true
+	}
+	for c, n := range st.RefCounts {
+		if n > 0 && !want[c] {
+			w.h.OracleFail("refcount-not-reachability", "a chain has a positive reference count although no hook rule or force-programmed chain reaches it",
+				map[string]any{"chain": c, "count": n, "op": op})
+		}
+		if n < 0 {
+			w.h.OracleFail("refcount-not-reachability", "negative reference count", map[string]any{"chain": c, "count": n, "op": op})
+		}
+	}
+	for c := range want {
+		if st.RefCounts[c] <= 0 {
+			w.h.OracleFail("refcount-not-reachability", "a chain reachable from a hook rule or force-programmed chain has no reference count",
+				map[string]any{"chain": c, "op": op})
+		}
+	}
+}
+
+// convergenceOracle: apply_converges evaluated on the real code.  It is only demanded when the
+// Apply re-read the table (an iptables-save succeeded during this Apply) and no out-of-band edit
+// was injected after that read, i.e. when Felix's picture of the table was fresh.
+func (w *world) convergenceOracle(op string) {
+	sawSave, editedAfter := false, strings.Contains(op, "pre=")
+	for _, t := range w.trace {
+		if t == "S:ok" {
+			sawSave = true
+		}
+	}
+	if !sawSave || editedAfter {
+		return
+	}
+	refd := w.reachable("")
 	for c, sc := range w.chains {
 		if !refd[c] {
 			continue
@@ -630,8 +674,12 @@ func (w *world) convergenceOracle(op string) {
 	for c := range w.dp.Chains {
 		if oursRe.MatchString(c) {
 			if _, ok := w.chains[c]; !ok || !refd[c] {
-				w.h.OracleFail("stale-owned-chain", "after a successful Apply a Felix-named chain that is not desired is still present",
-					map[string]any{"chain": c, "op": op})
+				why := "Felix was never given it, or it was removed"
+				if ok {
+					why = "not reachable from any hook rule or force-programmed chain"
+				}
+				w.h.OracleFail("stale-chain-after-apply", "after a successful Apply a Felix-named chain that is not desired is still present",
+					map[string]any{"chain": c, "why": why, "rules": w.dp.Chains[c], "op": op})
 			}
 			continue
 		}
@@ -774,7 +822,28 @@ func genCase(h *rt.H, w *world) []string {
 		ops = append(ops, kedit())
 	}
 	n := 5 + h.Intn(20)
+	// motif (one case in three): a force-programmed chain that jumps to a child nobody else refers to is programmed
+	// and later removed: the child must go away with it
+	motifAt := -1
+	if h.Intn(3) == 0 {
+		motifAt = h.Intn(n)
+	}
 	for i := 0; i < n; i++ {
+		if i == motifAt {
+			parent := rt.Pick(h, caliChains[:3])
+			child := rt.Pick(h, targetsFrom(parent))
+			ct := genToks(h, child)
+			pt := rt.Pick(h, []string{"j:", "g:"}) + child
+			if h.Bool() {
+				pt += "|" + fmt.Sprintf("d:%d", h.Intn(4))
+			}
+			ops = append(ops, fmt.Sprintf("chain %s 0 %s %s", child, ct, w.drules(child, ct, false)),
+				fmt.Sprintf("chain %s 1 %s %s", parent, pt, w.drules(parent, pt, false)), "apply", "rmchain "+parent, "apply")
+			if h.Bool() {
+				ops = append(ops, "invalidate", "apply")
+			}
+			continue
+		}
 		switch k := h.Intn(20); {
 		case k < 6:
 			c := rt.Pick(h, caliChains)
@@ -842,7 +911,7 @@ func main() {
 	defer h.Close()
 	gomega.RegisterFailHandler(func(msg string, _ ...int) { panic(mockFail(msg)) })
 	h.Rule = "case = insert/append mode + start table (shared chains with foreign rules, old-style inserts, stale and current Felix rules in any position; " +
-		"stale Felix chains incl. historic prefixes; foreign chains) + 5..24 ops over {UpdateChain, RemoveChainByName, InsertOrAppendRules, AppendRules, " +
+		"stale Felix chains incl. historic prefixes; foreign chains) + 5..24 ops over {UpdateChain (incl. force-programmed parents of otherwise unreferenced children, later removed), RemoveChainByName, InsertOrAppendRules, AppendRules, " +
 		"invalidate, restart, out-of-band chain edits, Apply with injected iptables-save failures, forced iptables-restore failures and an edit right before the restore}; " +
 		"non-trivial = a restore failed, a save failed, or a transaction deleted a chain or removed rules from a shared chain"
 	gw := &world{h: h}
@@ -854,6 +923,7 @@ func main() {
 			out := exec(w, op)
 			if !w.dead && out != "panic" {
 				w.checkCacheOK(op)
+				w.checkRefcounts(op)
 			}
 			h.Op(op, out)
 			k := strings.Fields(op)[0]
